@@ -415,10 +415,19 @@ def check_blame_context(ctx, r, cg):
     if not bad:
         ctx.ok("C13.5", gp.qualname, f"{len(pred)} functions reachable by direct calls; none pushes, pops or resets the context")
     # it must re-check with the same typechecker and the caller's own args
-    calls = [c for c in m.calls_in(gp) if isinstance(c.func, ast.Name) and c.func.id == "fn"]
+    # the re-check function: the local bound to the synthetic single-parameter function (whatever its name)
+    names = set()
+    for st in walk_scope(gp.node):
+        if isinstance(st, ast.Assign) and len(st.targets) == 1 and isinstance(st.targets[0], ast.Name) and isinstance(st.value, ast.Call):
+            t = m.resolve_call(gp, st.value)
+            if t.kind == "func" and t.target.name in ("_make_fn_with_signature", "_apply_typechecker"):
+                names.add(st.targets[0].id)
+    need(names, "C13.5: the synthetic single-parameter function of _get_problem_arg was not found")
+    calls = [c for c in m.calls_in(gp) if isinstance(c.func, ast.Name) and c.func.id in names]
+    need(calls, "C13.5: the call of the single-parameter re-check was not found")
     from .c19 import is_passthrough_call
 
-    if calls and all(is_passthrough_call(c) for c in calls):
+    if calls and all(is_passthrough_call(c, c.func.id) for c in calls):
         ctx.ok("C13.5", gp.qualname, "single-parameter re-check is called with exactly *args, **kwargs")
     else:
         ctx.bad("C13.5", gp, gp.node, "the single-parameter re-check is not called with exactly the original *args, **kwargs", construct="re-check call")
